@@ -17,6 +17,8 @@ import (
 	"fmt"
 	"reflect"
 	"strings"
+	"testing/synctest"
+	"time"
 
 	agglayertypes "github.com/agglayer/aggkit/agglayer/types"
 	"github.com/agglayer/aggkit/aggsender/types"
@@ -349,7 +351,12 @@ func run(c *mc.Ctx, u mc.Unit) {
 		panic(fmt.Sprintf("c10 harness: cannot build the world for %s: %v", sp, err))
 	}
 	defer w.close()
+	// The send steps run in a synctest bubble: the certificate's creation time (part of its metadata, hence of its
+	// identity) comes from a deterministic clock, and the retry below happens two (fake) seconds after the first send.
+	synctest.Run(func() { runSteps(c, sp, withPrev, w) })
+}
 
+func runSteps(c *mc.Ctx, sp spec, withPrev bool, w *world) {
 	// ---- the real pipeline: one epoch tick of the send loop
 	w.sender.VerifEpochTick(context.Background())
 	if len(w.flow.built) != 1 || len(w.submission.requests) != 1 {
@@ -466,6 +473,7 @@ func run(c *mc.Ctx, u mc.Unit) {
 			return
 		}
 		w.mutateRange()
+		time.Sleep(2 * time.Second) // fake clock
 		w.flow.built, w.submission.requests = nil, nil
 		w.epochs.ch <- types.EpochEvent{Epoch: 2}
 		w.sender.VerifEpochTick(context.Background())
